@@ -602,6 +602,20 @@ func dhcpJobs(tier string) []Job {
 			jobs = append(jobs, Job{Pkg: "handlers/dhcp4_spoofer", Func: "VerifC11Step", Args: []int64{2, variant, 1}, SplitN: 24, Cfg: c, Reach: r})
 		}
 	}
+	// other home / netfilter prefix configurations (verifNetConfig 1, 2)
+	for _, ncfg := range []int64{1, 2} {
+		for mode := int64(1); mode <= 3; mode++ {
+			for variant := int64(0); variant <= 6; variant++ {
+				if tier != "thorough" && !(mode == 2 && (variant == 0 || variant == 2)) && !(mode == 3 && variant == 1) {
+					continue // quick tier: DISCOVER with requested address and REQUEST selecting in secondary mode, plain DISCOVER in nice mode
+				}
+				jobs = append(jobs, Job{Pkg: "handlers/dhcp4_spoofer", Func: "VerifC11StepCfg", Args: []int64{mode, variant, 0, ncfg}, SplitN: 4, Cfg: c, Reach: r})
+				if tier == "thorough" && variant >= 2 && variant <= 4 {
+					jobs = append(jobs, Job{Pkg: "handlers/dhcp4_spoofer", Func: "VerifC11StepCfg", Args: []int64{mode, variant, 1, ncfg}, SplitN: 24, Cfg: c, Reach: r})
+				}
+			}
+		}
+	}
 	return jobs
 }
 
@@ -611,7 +625,7 @@ func dhcpBounds(tier string) map[string]string {
 		pre = "empty lease table and one arbitrary pre-existing lease (any state, either subnet, any client id / MAC / address / xid / expiry) for every (mode, message variant)"
 	}
 	return map[string]string{
-		"configuration": "home LAN 192.168.0.0/28 (router .1, our host .9), netfilter LAN 192.168.0.8/29 with our host as gateway (deliberately small pools: cursor wrap-around and exhaustion are inside the bound); modes primary, secondary, secondary-nice; symbolic host / router MAC",
+		"configuration": "three prefix configurations: home LAN 192.168.0.0/28 (router .1, our host .9) with netfilter LAN 192.168.0.8/29; home /27 (host .17) with netfilter 192.168.0.16/28; home /28 (host .2) with netfilter 192.168.0.0/30 containing the router address; our host is the netfilter gateway (deliberately small pools: cursor wrap-around and exhaustion are inside the bound; quick tier: the 2nd and 3rd configuration for DISCOVER with requested address, REQUEST selecting and plain DISCOVER only); modes primary, secondary, secondary-nice; symbolic host / router MAC",
 		"pre-states":    pre + "; the client captured or not; optionally an address the session tracks for another MAC",
 		"messages":      "DISCOVER (with / without requested address and parameter list), REQUEST selecting / renewing-rebinding / rebooting, DECLINE, RELEASE as Ethernet/IPv4/UDP/DHCP frames through the real Parse: client id (7 bytes), chaddr, xid, ciaddr, flags, source addresses symbolic; requested address any 192.168.0.x or 8.8.8.8; server id ours / the router's / any 192.168.0.x; parameter list {3,1} or {1,6}",
 		"induction":     "one message from an arbitrary invariant lease table: reply contract + lease-table invariant (no address acknowledged to two clients, allocated leases usable) asserted afterwards",
